@@ -15,8 +15,11 @@ package sqlittle
 // table's definition inside its own read transaction (C08: no answer from a definition remembered
 // from an earlier transaction).
 //@ ghost schema_calls bv64
+//@ ghost last_schema Int
 //@ func (*db.Database).Schema
 //@   ghost-exit schema_calls = schema_calls + 1
+//@   ghost-exit last_schema = r0
+//@   ensures [handed] last_schema == r0
 //@   ensures [counted] schema_calls == old(schema_calls) + 1
 //@   ensures [built-now] err == nil ==> fresh(r0)
 //@   props C06 C10 C05 C08
@@ -42,6 +45,7 @@ package sqlittle
 //@   props C06 C17 C08
 //@   ensures-before-exit [current-schema] r0 == nil ==> schema_calls == old(schema_calls) + 1
 //@   ghost-exit schema_calls = old(schema_calls)
+//@   ghost-exit last_schema = old(last_schema)
 //@   modifies * -M:S_sqlittle_columnIndex lk_shared lk_pending peer_state cc_now hdr_valid hdr_ps hdr_cookie jr_pos
 //@   requires db != nil && !lk_shared && !lk_pending && cb != nil
 //@   ensures [released] !lk_shared && !lk_pending
@@ -52,6 +56,7 @@ package sqlittle
 //@   props C06 C08
 //@   ensures-before-exit [current-schema] r1 == nil ==> schema_calls == old(schema_calls) + 1
 //@   ghost-exit schema_calls = old(schema_calls)
+//@   ghost-exit last_schema = old(last_schema)
 //@   modifies * -M:S_sqlittle_columnIndex lk_shared lk_pending peer_state cc_now hdr_valid hdr_ps hdr_cookie jr_pos
 //@   requires db != nil && !lk_shared && !lk_pending
 //@   ensures [released] !lk_shared && !lk_pending
@@ -61,6 +66,7 @@ package sqlittle
 //@   props C06 C08
 //@   ensures-before-exit [current-schema] r0 == nil ==> schema_calls == old(schema_calls) + 1
 //@   ghost-exit schema_calls = old(schema_calls)
+//@   ghost-exit last_schema = old(last_schema)
 //@   modifies * -M:S_sqlittle_columnIndex lk_shared lk_pending peer_state cc_now hdr_valid hdr_ps hdr_cookie jr_pos
 //@   requires db != nil && !lk_shared && !lk_pending && cb != nil
 //@   ensures [released] !lk_shared && !lk_pending
@@ -71,6 +77,7 @@ package sqlittle
 //@   props C06 C08
 //@   ensures-before-exit [current-schema] r0 == nil ==> schema_calls == old(schema_calls) + 1
 //@   ghost-exit schema_calls = old(schema_calls)
+//@   ghost-exit last_schema = old(last_schema)
 //@   modifies * -M:S_sqlittle_columnIndex lk_shared lk_pending peer_state cc_now hdr_valid hdr_ps hdr_cookie jr_pos
 //@   requires db != nil && !lk_shared && !lk_pending && cb != nil
 //@   ensures [released] !lk_shared && !lk_pending
@@ -81,16 +88,21 @@ package sqlittle
 //@   props C06 C08
 //@   ensures-before-exit [current-schema] r0 == nil ==> schema_calls == old(schema_calls) + 1
 //@   ghost-exit schema_calls = old(schema_calls)
+//@   ghost-exit last_schema = old(last_schema)
 //@   modifies * -M:S_sqlittle_columnIndex lk_shared lk_pending peer_state cc_now hdr_valid hdr_ps hdr_cookie jr_pos
 //@   requires db != nil && !lk_shared && !lk_pending && cb != nil
 //@   ensures [released] !lk_shared && !lk_pending
 //@   ensures [yield] peer_stable && old(peer_state) >= 3 ==> r0 != nil
 //@   ensures-on-panic [released] !lk_shared && !lk_pending
 
+// Columns: the names exactly as the definition read in this call spells them, in definition order.
 //@ func (*sqlittle.DB).Columns
-//@   props C06 C08
+//@   props C06 C08 C10
 //@   ensures-before-exit [current-schema] r1 == nil ==> schema_calls == old(schema_calls) + 1
+//@   ensures-before-exit [names] r1 == nil ==> len(r0) == len(deref(last_schema, "*db.Schema").Columns) && (forall k int :: 0 <= k && k < len(r0) ==> r0[k] == deref(last_schema, "*db.Schema").Columns[k].Column)
 //@   ghost-exit schema_calls = old(schema_calls)
+//@   ghost-exit last_schema = old(last_schema)
+//@   loop 1 invariant [names] len(cols) == $i && (forall k int :: 0 <= k && k < $i ==> cols[k] == s.Columns[k].Column) && (reg(cols) == 0 || fresh(cols))
 //@   modifies * -M:S_sqlittle_columnIndex lk_shared lk_pending peer_state cc_now hdr_valid hdr_ps hdr_cookie jr_pos
 //@   requires db != nil && !lk_shared && !lk_pending
 //@   ensures [released] !lk_shared && !lk_pending
@@ -133,6 +145,7 @@ package sqlittle
 //@   opt results=done
 //@   modifies * -M:S_db_KeyCol -M:S_sqlittle_columnIndex pos halt
 //@   requires [nohalt] !halt
+//@   requires [arow] reg(cbrow) != 0
 //@   requires [mode] !viaidx && !vianr
 //@   requires [item] (!ixmode ==> rowfor(cbrow, tb_rowid(cur_tree, pos), tb_payload(cur_tree, pos))) && (ixmode ==> rowfor(cbrow, 0, ix_payload(cur_tree, pos)))
 //@   ensures pos == old(pos) + 1 && (halt <==> done)
